@@ -23,6 +23,10 @@ pub struct Case {
     pub data: Vec<u8>,
     /// top-down BGRA of the image the data encodes, when it is a valid encoding
     pub image: Option<Vec<u8>>,
+    /// a second acceptable image where the wire format can be read in two ways (uncompressed 16 bpp rows of odd
+    /// width: packed, as every deployed client reads them, or padded to 32 bits as MS-RDPBCGR words it)
+    #[serde(default)]
+    pub alt_image: Option<Vec<u8>>,
 }
 
 const CANARY: u32 = 0xDEAD_BEEF;
@@ -94,14 +98,25 @@ pub fn run(c: &Case) -> Outcome {
                     let (iw, ih) = (c.img_w as usize, c.img_h as usize);
                     if iw >= r - l + 1 && ih >= b - t + 1 && img.len() == iw * ih * 4 {
                         out.label("exact-copy-checked");
-                        for y in t..=b {
-                            for x in l..=r {
-                                let s = ((y - t) * iw + (x - l)) * 4;
-                                let want = u32::from_le_bytes([img[s], img[s + 1], img[s + 2], img[s + 3]]);
-                                if buffer[y * ww + x] != want {
-                                    out.fail("blit:wrong-pixel", format!("window pixel ({}, {}) = {:#010x}, image pixel ({}, {}) = {:#010x}; window {}x{} rect ({},{})-({},{}) image {}x{}", x, y, buffer[y * ww + x], x - l, y - t, want, ww, wh, l, t, r, b, iw, ih));
-                                    return out;
+                        let mismatch = |img: &Vec<u8>| -> Option<String> {
+                            for y in t..=b {
+                                for x in l..=r {
+                                    let s = ((y - t) * iw + (x - l)) * 4;
+                                    let want = u32::from_le_bytes([img[s], img[s + 1], img[s + 2], img[s + 3]]);
+                                    if buffer[y * ww + x] != want {
+                                        return Some(format!("window pixel ({}, {}) = {:#010x}, image pixel ({}, {}) = {:#010x}; window {}x{} rect ({},{})-({},{}) image {}x{}", x, y, buffer[y * ww + x], x - l, y - t, want, ww, wh, l, t, r, b, iw, ih));
+                                    }
                                 }
+                            }
+                            None
+                        };
+                        if let Some(m) = mismatch(img) {
+                            let alt_ok = c.alt_image.as_ref().map(|a| a.len() == img.len() && mismatch(a).is_none()).unwrap_or(false);
+                            if alt_ok {
+                                out.label("alternative-reading");
+                            } else {
+                                out.fail("blit:wrong-pixel", m);
+                                return out;
                             }
                         }
                     }
@@ -171,6 +186,7 @@ pub fn decode(s: &mut Src) -> Case {
         st ^= st << 17;
         (st % n.max(1) as u64) as usize
     };
+    let mut alt: Option<Vec<u8>> = None;
     let (bpp, compress, mut data, mut image): (u16, bool, Vec<u8>, Option<Vec<u8>>) = match mode {
         0 | 1 | 2 => {
             // raw 32 bpp, bottom-up on the wire
@@ -199,14 +215,27 @@ pub fn decode(s: &mut Src) -> Case {
             }
         }
         6 => {
-            // raw 16 bpp, even widths only carry an expected image (see C09)
+            // raw 16 bpp. Even widths: one reading. Odd widths: rows packed (what every deployed client does, and the only
+            // reading when the data has exactly w*h*2 bytes) or, when the data is long enough, padded to 32 bits (the
+            // specification's wording); both readings are accepted (see C09 / DESIGN 4.5)
             let px: Vec<u16> = (0..img_w * img_h).map(|i| (i as u16).wrapping_mul(40503)).collect();
             let mut wire = Vec::new();
             for v in &px {
                 wire.extend_from_slice(&v.to_le_bytes());
             }
-            let img = if img_w % 2 == 0 { Some(rle16::to_bgra(&rle16::flip(&px, img_w, img_h))) } else { None };
-            (16, false, wire, img)
+            if img_w % 2 == 1 && img_w > 0 && img_h > 0 && ch(2) == 0 {
+                // trailing bytes up to the padded size: now the padded reading applies as well
+                let padded = (img_w * 2 + 2) * img_h;
+                let mut k = 0u16;
+                while wire.len() < padded {
+                    k = k.wrapping_add(0x3571);
+                    wire.push((k >> 3) as u8);
+                }
+                let row = img_w * 2 + 2;
+                let alt_px: Vec<u16> = (0..img_h).flat_map(|r| (0..img_w).map(move |x| (r, x))).map(|(r, x)| u16::from_le_bytes([wire[r * row + 2 * x], wire[r * row + 2 * x + 1]])).collect();
+                alt = Some(rle16::to_bgra(&rle16::flip(&alt_px, img_w, img_h)));
+            }
+            (16, false, wire, Some(rle16::to_bgra(&rle16::flip(&px, img_w, img_h))))
         }
         _ => {
             let l = s.below(64);
@@ -228,6 +257,11 @@ pub fn decode(s: &mut Src) -> Case {
             } else if bpp == 32 {
                 image = None
             }
+            alt = None;
+            if bpp == 16 && !compress && img_w % 2 == 1 {
+                // extra bytes may complete the padded size: two readings again, keep it simple and assert nothing
+                image = None;
+            }
         }
         2 if !data.is_empty() => {
             let i = s.below(data.len());
@@ -236,7 +270,7 @@ pub fn decode(s: &mut Src) -> Case {
         }
         _ => {}
     }
-    Case { win_w, win_h, left, top, right, bottom, img_w: img_w as u16, img_h: img_h as u16, bpp, compress, data, image }
+    Case { win_w, win_h, left, top, right, bottom, img_w: img_w as u16, img_h: img_h as u16, bpp, compress, data, alt_image: if image.is_some() { alt } else { None }, image }
 }
 
 fn small(part: usize, parts: usize) -> impl Iterator<Item = Case> {
@@ -253,7 +287,7 @@ fn small(part: usize, parts: usize) -> impl Iterator<Item = Case> {
                 for &t in &coords {
                     for &r in &coords {
                         for &b in &coords {
-                            v.push(Case { win_w: ww, win_h: wh, left: l, top: t, right: r, bottom: b, img_w: iw, img_h: ih, bpp: 32, compress: false, data: wire.clone(), image: Some(img.clone()) });
+                            v.push(Case { win_w: ww, win_h: wh, left: l, top: t, right: r, bottom: b, img_w: iw, img_h: ih, bpp: 32, compress: false, data: wire.clone(), image: Some(img.clone()), alt_image: None });
                         }
                     }
                 }
